@@ -6,6 +6,8 @@ require (
 	go.etcd.io/bbolt v1.5.0
 	go.sia.tech/core v0.21.7
 	go.sia.tech/coreutils v0.0.0
+	go.sia.tech/mux v1.5.3
+	go.uber.org/zap v1.28.0
 	golang.org/x/crypto v0.54.0
 )
 
@@ -14,9 +16,7 @@ require (
 	github.com/quic-go/qpack v0.6.0 // indirect
 	github.com/quic-go/quic-go v0.60.0 // indirect
 	github.com/quic-go/webtransport-go v0.11.1 // indirect
-	go.sia.tech/mux v1.5.3 // indirect
 	go.uber.org/multierr v1.11.0 // indirect
-	go.uber.org/zap v1.28.0 // indirect
 	golang.org/x/net v0.56.0 // indirect
 	golang.org/x/sys v0.47.0 // indirect
 	golang.org/x/text v0.40.0 // indirect
